@@ -15,6 +15,7 @@ import (
 	"strings"
 	"testing"
 	"testing/synctest"
+	"time"
 
 	"golang.org/x/net/internal/zzverif/vx"
 )
@@ -54,6 +55,8 @@ type c21Case struct {
 //	lreset:I               Reset(0) + CloseRead() of the I-th locally opened stream
 //	forgot:I               not an event but a precondition (used in fixed prefixes only): the conn no longer tracks
 //	                       the I-th locally opened stream; if it still does, the case ends here (truncated)
+//	nclosed:K              a precondition too (fixed prefixes only): the conn counts exactly K peer streams of the focus
+//	                       type as closed; otherwise the case ends here (truncated)
 //	l<k>#N                 peer frame of kind k (as above; s, f, r: bidi only) on the LOCALLY-initiated focus-type
 //	                       stream number N, whatever its state: open, closed and forgotten by the conn, never opened
 
@@ -303,6 +306,11 @@ func (r *c21Run) step(op string) bool {
 				return false
 			}
 			w.Outcome("peer-frame:STREAM_LIMIT_ERROR")
+			if r.closable(t)+r.maxRemote[t] > lim {
+				// finished peer streams would allow a larger limit, but no MAX_STREAMS
+				// carrying it is on the wire: the advertised limit is the one that counts
+				w.Outcome("peer-frame:STREAM_LIMIT_ERROR:limit-update-withheld")
+			}
 			r.expClosed = true
 			return false
 		}
@@ -311,6 +319,9 @@ func (r *c21Run) step(op string) bool {
 			return false
 		}
 		w.Outcome("peer-frame:accepted")
+		if num == lim-1 && r.closable(t)+r.maxRemote[t] > lim {
+			w.Outcome("peer-frame:accepted:last-advertised-number:limit-update-withheld")
+		}
 		return true
 	case op == "acc":
 		s, err := q.tc.conn.AcceptStream(canceledContext())
@@ -368,6 +379,17 @@ func (r *c21Run) step(op string) bool {
 			return false
 		}
 		w.Outcome("prefix:local-stream-forgotten")
+	case name == "nclosed":
+		k, _ := strconv.ParseInt(arg, 10, 64)
+		synctest.Wait()
+		var got int64
+		if err := q.tc.conn.runOnLoop(q.t.Context(), func(now time.Time, c *Conn) {
+			got = c.streams.remoteLimit[r.ft].closed
+		}); err != nil || got != k {
+			w.Outcome("prefix:peer-streams-not-closed")
+			return false
+		}
+		w.Outcome("prefix:peer-streams-closed")
 	case len(op) >= 4 && op[0] == 'l' && op[2] == '#':
 		kind := op[1]
 		num, _ := strconv.ParseInt(op[3:], 10, 64)
@@ -539,6 +561,11 @@ func (g *c21Gen) clone() *c21Gen {
 	return &n
 }
 
+// c21GenStable is the largest configured limit for which the generator
+// predicts the advertised limit: beyond it the initial limit is capped and
+// may grow by opening streams alone, so relative targets stay unresolved.
+const c21GenStable = 99
+
 // resolve predicts the stream number of a target. While no accepted stream
 // has been closed the advertised limit is still the initial one.
 func (g *c21Gen) resolve(tgt string) (num int64, known bool) {
@@ -546,7 +573,7 @@ func (g *c21Gen) resolve(tgt string) (num int64, known bool) {
 	if tgt[0] == '#' {
 		return d, true
 	}
-	if g.nClose == 0 {
+	if g.nClose == 0 && g.cfg.MaxRemote <= c21GenStable {
 		return g.cfg.MaxRemote + d, true
 	}
 	return d, false
@@ -633,7 +660,7 @@ func (g *c21Gen) apply(op string) {
 			g.terminal = true
 		case !known:
 			g.framedX++ // upper bound
-		case num >= g.cfg.MaxRemote+int64(g.nClose):
+		case g.cfg.MaxRemote <= c21GenStable && num >= g.cfg.MaxRemote+int64(g.nClose):
 			// the advertised limit is at most MaxRemote + (streams closed so far)
 			g.terminal = true
 		default:
@@ -728,11 +755,21 @@ func c21Unit(c *vx.Ctx, maxOpen int64, depth int) {
 				if !o.Abs {
 					num += s.adv
 				}
-				// the peer acts on the limit it was sent (s.adv), the endpoint checks lim.max >= s.adv
+				// the peer acts on the limit it was sent (s.adv), the endpoint checks lim.max >= s.adv;
+				// only while a MAX_STREAMS frame is queued and not yet written may the endpoint
+				// already accept numbers up to the value that frame will carry
+				queued := s.lim.sendMax.shouldSend()
 				err := s.lim.open(newStreamID(clientSide, bidiStream, num))
 				if num >= s.adv && num >= s.lim.max && err == nil {
 					w.Failf("C21/unit/over-limit-open-accepted", "open(number %d) accepted with limit %d (sent %d)", num, s.lim.max, s.adv)
 					return false
+				}
+				if num >= s.adv && err == nil && !queued {
+					w.Failf("C21/unit/over-limit-open-accepted/no-frame-queued", "open(number %d) accepted although the last limit sent is %d and no MAX_STREAMS frame is queued (%d opened, %d closed, configured %d)", num, s.adv, s.openedN, s.closedN, s.maxOpen)
+					return false
+				}
+				if num >= s.adv && err != nil && s.closedN+s.maxOpen > s.adv {
+					w.Outcome("open:rejected:limit-update-withheld")
 				}
 				if num < s.adv && err != nil {
 					w.Failf("C21/unit/in-limit-open-rejected", "open(number %d) rejected (%v) with sent limit %d", num, err, s.adv)
@@ -817,6 +854,19 @@ func c21SeedForgotten(cfg c21Cfg) (seeds [][]string) {
 	return seeds
 }
 
+// c21SeedPeerClosed: the peer has opened and finished its streams 0..k-1 and
+// the conn has accepted and closed each of them completely (Close, then
+// everything acknowledged), checked on the real conn by nclosed:k.
+func c21SeedPeerClosed(k int) func(cfg c21Cfg) [][]string {
+	return func(cfg c21Cfg) [][]string {
+		var seed []string
+		for i := 0; i < k; i++ {
+			seed = append(seed, fmt.Sprintf("pf#%d", i), "acc", fmt.Sprintf("close:%d", i))
+		}
+		return [][]string{append(seed, "ack", fmt.Sprintf("nclosed:%d", k))}
+	}
+}
+
 func c21Parts(c *vx.Ctx) []c21Part {
 	sides := vx.Pick(c, []string{"server"}, []string{"server", "client"})
 	types := []string{"bidi", "uni"}
@@ -849,12 +899,33 @@ func c21Parts(c *vx.Ctx) []c21Part {
 	}
 	lkinds = append(lkinds, "new", "newb", "max:2", "max:3", "ack", "lclose:1")
 	remote := []string{"ps#0", "pf#0", "pr#0", "ps@-1", "pf@-1", "acc", "close:0", "close:1", "ack", "ps@0", "pr@0"}
-	return []c21Part{
+	var extra []c21Part
+	// Configured limits large enough that the conn may withhold a MAX_STREAMS update after a peer stream
+	// finished (8 / 9: the two sides of its "fewer than 8 stream numbers left" rule with one stream opened;
+	// 16, 20: well inside; 100, 101, 120: at / beyond the cap on the initial limit, where opening a stream
+	// alone raises the limit the conn aims for). The limit that counts is the one on the wire: the peer
+	// opens a few streams, they are closed completely in any order, and then the peer uses the numbers
+	// limit-1 and limit of the last limit it was actually sent. (Thorough widens the configurations, not the
+	// depth: the deeper parts below already use up the thorough budget.)
+	batched := cfgs(vx.Pick(c, []int64{9, 20, 120}, []int64{8, 9, 16, 20, 100, 101, 120}), []int64{1})
+	extra = append(extra, c21Part{"remote-batched", batched,
+		[]string{"pf#0", "pf#1", "acc", "close:0", "close:1", "ack", "ps@-1", "ps@0"}, 5, nil})
+	// ... and the same boundary behind fixed prefixes with k = 1, 2, 3 peer streams closed completely
+	for k := 1; k <= 3; k++ {
+		extra = append(extra, c21Part{fmt.Sprintf("remote-batched-closed-%d", k), batched,
+			[]string{fmt.Sprintf("ps#%d", k), fmt.Sprintf("pf#%d", k), "acc", fmt.Sprintf("close:%d", k), "ack",
+				"ps@-2", "ps@-1", "pf@-1", "pr@-1", "ps@0", "pr@0", "pm@0", "ps@5"},
+			3, c21SeedPeerClosed(k)})
+	}
+	parts := []c21Part{
 		// local stream creation against the peer's MAX_STREAMS
 		{"local", cfgs([]int64{1}, []int64{0, 1, 2}),
 			[]string{"new", "newb", "max:1", "max:2", "max:3", "omax:3", "onew"}, vx.Pick(c, 4, 5), nil},
 		// peer-created streams against the conn's advertised limit
 		{"remote-kinds", cfgs([]int64{0, 1, 2}, []int64{1}), kinds, vx.Pick(c, 2, 3), nil},
+	}
+	parts = append(parts, extra...)
+	parts = append(parts, []c21Part{
 		// the two stream types do not share a limit
 		{"cross-type", cfgs([]int64{1}, []int64{1}),
 			[]string{"pf#0", "ops#0", "ops#1", "acc", "close:0", "close:1", "ps@0", "ps@-1", "omax:3", "onew", "new"}, vx.Pick(c, 4, 5), nil},
@@ -879,18 +950,19 @@ func c21Parts(c *vx.Ctx) []c21Part {
 		{"local-late-2", cfgs([]int64{1}, []int64{2}),
 			[]string{"new", "lclose:0", "lclose:1", "ack", "lf#1", "lm#0", "lm#1", "max:3"},
 			vx.Pick(c, 4, 6), c21SeedOpens},
-	}
+	}...)
+	return parts
 }
 
 func TestVerif_C21(t *testing.T) {
 	vx.Run(t, "C21", func(c *vx.Ctx) {
-		c.Rule("q-peer: for every configuration (conn side, stream type in focus, configured Max*RemoteStreams 0..3, peer initial_max_streams 0..2) every sequence of enabled operations up to the depth of the part, shortest first, each on a fresh handshaken Conn in its own synctest bubble; operations: local NewStream with cancelled / live context, peer MAX_STREAMS (any order, stale values), peer STREAM/FIN/RESET_STREAM/MAX_STREAM_DATA/STOP_SENDING on stream numbers {0,1,2,limit-1,limit,limit+5}, AcceptStream, Close of accepted/local streams, Reset+CloseRead of local streams, ACK of everything sent, and peer STREAM/FIN/RESET_STREAM/MAX_STREAM_DATA/STOP_SENDING addressed to the conn's OWN stream numbers {0,1,2} in every life-cycle state (open, half closed, completely closed and forgotten, never opened) with the conn exactly at / one below the peer's limit; a monitor reads every frame the conn sends after every step. The parts local-kinds / local-late / local-late-2 enumerate behind fixed prefixes (not counted in the depth): local-kinds behind each of {n opens, n = limit and limit-1} x {peer FIN, Close, ACK | Reset+CloseRead, peer RESET_STREAM, ACK} with the precondition that the conn has forgotten stream 0 (checked on the real conn; it held in every case or the outcome prefix:local-stream-not-forgotten is listed); local-late* behind 'limit' opens, so that the closing steps themselves are explored in every order interleaved with late frames and further opens. Non-trivial = the whole sequence was executed on the real conn (or ended in the expected STREAM_LIMIT_ERROR at its last step). q-unit: BFS with state dedup over open/close/send on remoteStreamLimits. Counters: states = histories explored completely (stateless search, no deduplication), transitions = operations applied to the real conn and checked, traces = cases executed.")
+		c.Rule("q-peer: for every configuration (conn side, stream type in focus, configured Max*RemoteStreams 0..3 and, in the remote-batched* parts, {9, 20, 120} quick / {8, 9, 16, 20, 100, 101, 120} thorough, peer initial_max_streams 0..2) every sequence of enabled operations up to the depth of the part, shortest first, each on a fresh handshaken Conn in its own synctest bubble; operations: local NewStream with cancelled / live context, peer MAX_STREAMS (any order, stale values), peer STREAM/FIN/RESET_STREAM/MAX_STREAM_DATA/STOP_SENDING on stream numbers {0,1,2,limit-1,limit,limit+5}, AcceptStream, Close of accepted/local streams, Reset+CloseRead of local streams, ACK of everything sent, and peer STREAM/FIN/RESET_STREAM/MAX_STREAM_DATA/STOP_SENDING addressed to the conn's OWN stream numbers {0,1,2} in every life-cycle state (open, half closed, completely closed and forgotten, never opened) with the conn exactly at / one below the peer's limit; a monitor reads every frame the conn sends after every step. The parts local-kinds / local-late / local-late-2 enumerate behind fixed prefixes (not counted in the depth): local-kinds behind each of {n opens, n = limit and limit-1} x {peer FIN, Close, ACK | Reset+CloseRead, peer RESET_STREAM, ACK} with the precondition that the conn has forgotten stream 0 (checked on the real conn; it held in every case or the outcome prefix:local-stream-not-forgotten is listed); local-late* behind 'limit' opens, so that the closing steps themselves are explored in every order interleaved with late frames and further opens. The remote-batched* parts use configured limits large enough that the conn may withhold a MAX_STREAMS update after peer streams finished (8 | 9: either side of 'fewer than 8 numbers left' with one stream opened; 100 | 101, 120: at and beyond the cap of the initial limit): remote-batched enumerates peer STREAM+FIN on streams 0, 1, AcceptStream, Close of either, ACK and a peer STREAM on the numbers limit-1 and limit in every order from a fresh conn; remote-batched-closed-k (k = 1, 2, 3) enumerates behind the fixed prefix 'streams 0..k-1 opened with FIN by the peer, accepted, closed, everything acknowledged' (precondition checked on the real conn: it counts k closed peer streams, else outcome prefix:peer-streams-not-closed) the operations open / open+FIN stream k, AcceptStream, Close, ACK, STREAM on limit-2, STREAM / STREAM+FIN / RESET_STREAM on limit-1, STREAM / RESET_STREAM / MAX_STREAM_DATA on limit, STREAM on limit+5. In all parts 'limit' is computed from the wire only: the conn's initial_max_streams transport parameter, then the largest MAX_STREAMS frame it actually sent; the outcomes *:limit-update-withheld count boundary probes made while finished streams would already allow a larger limit that is not on the wire. Non-trivial = the whole sequence was executed on the real conn (or ended in the expected STREAM_LIMIT_ERROR at its last step). q-unit: BFS with state dedup over open (numbers 0, 1, sent limit-1, sent limit, sent limit+5) / close / send on remoteStreamLimits with maxOpen in {0, 1, 2, 3, 8, 9, 16, 20, 100, 120}; a number at or beyond the last limit sent must be refused unless a MAX_STREAMS frame is queued and not yet written. Counters: states = histories explored completely (stateless search, no deduplication), transitions = operations applied to the real conn and checked, traces = cases executed.")
 		c.Assume("a peer stream counts as no longer open once its final size is known to the conn (FIN or RESET_STREAM received) and, for bidirectional streams, a packet carrying the conn's FIN or RESET_STREAM was acknowledged; this is the weakest reading of 'closed', so the simultaneous-streams bound is not over-strict")
 		c.Assume("a peer frame for a local stream the conn never opened ends the history without a verdict (the property does not say how the conn reacts); frames addressed to local streams carry no data and final size 0, so they are legal in every state of an opened stream")
 		c.Assume("no packet loss or reordering of the conn's own packets in this check (C20/C32 cover loss); late/duplicate peer frames for finished streams are in the alphabet; the advertised limit is the one in frames the scripted peer has actually read; the other stream type is fixed at 1 remote / 0 local streams")
 
 		if s, _ := c.Shard(); s == 0 {
-			for _, mo := range []int64{0, 1, 2, 3, 8, 100} {
+			for _, mo := range []int64{0, 1, 2, 3, 8, 9, 16, 20, 100, 120} {
 				c21Unit(c, mo, vx.Pick(c, 8, 12))
 			}
 		}
